@@ -81,8 +81,9 @@ package reverseproxy
 //@   ensures [C15:prefix-only] result <==> hasPrefix(r.userAgent, "kube-probe/")
 
 //@ func NewHTTPHandler :: to, reverseProxy, headerInjectors -> h
-//@   props C15,C08
+//@   props C15,C08,C05,C09
 //@   requires reverseProxy != nil
 //@   assigns reverseProxy.Rewrite
 //@   ensures [C15:probe-off-by-default] h != nil && fresh(h) && h.IsProbeRequest == nil
+//@   ensures [C05,C08,C09:the-proxy-rewrites-with-this-handler-whatever-hook-was-there-before] reverseProxy.Rewrite == boundmethod(h, "rewriteFunc")
 //@   ensures [C08:wiring] h.To == to && h.reverseProxy == reverseProxy && h.HeaderInjectors == headerInjectors && h.PreserveHost == false
